@@ -652,9 +652,48 @@ func (f *FuncVC) sliceOp(st *State, x *ssa.Slice) *Val {
 			r.Fs[2].Lo = big.NewInt(0)
 			return r
 		}
+		// an array inside a struct or a local cell cannot back a slice in this
+		// heap model; when the slice is only converted to a string (read
+		// once, immediately) a snapshot of the array serves
+		if base.P != nil && sliceOnlyConverted(x) {
+			ls := leavesOfType(at.Elem())
+			if len(ls) == 1 {
+				av := f.load(st, base, bt.Elem())
+				if av != nil && av.K == KArr && len(av.Fs) == 1 && av.Fs[0].T != "" && (av.Fs[0].K == KInt || av.Fs[0].K == KBool) {
+					id := f.alloc(st)
+					hn := elemHeapPrefix(at.Elem()) + ls[0].Path
+					hs := arraySort(2, ls[0].Sort)
+					f.setHeap(st, hn, hs, store(f.heap(st, hn, hs), id, av.Fs[0].T))
+					r := &Val{K: KSlice, Ty: x.Type()}
+					r.Fs = []*Val{vInt(id, nil), vInt(loT, nil), vInt(arith("-", hiT, loT), nil), vInt(arith("-", mxT, loT), nil)}
+					r.Fs[2].Lo = big.NewInt(0)
+					return r
+				}
+			}
+		}
 	}
 	f.unsup("slice of unsupported base")
 	return f.freshTyped(st, x.Type(), "slice")
+}
+
+func sliceOnlyConverted(x *ssa.Slice) bool {
+	refs := x.Referrers()
+	if refs == nil || len(*refs) == 0 {
+		return false
+	}
+	for _, r := range *refs {
+		switch r := r.(type) {
+		case *ssa.DebugRef:
+		case *ssa.Convert:
+			b, ok := r.Type().Underlying().(*types.Basic)
+			if !ok || b.Info()&types.IsString == 0 {
+				return false
+			}
+		default:
+			return false
+		}
+	}
+	return true
 }
 
 // A-MEM: no slice has more than 2^40 elements (every make is checked against
@@ -687,6 +726,13 @@ func (f *FuncVC) convert(st *State, v *Val, from, to types.Type) *Val {
 		lo, hi := bounds(v)
 		r := f.wrapTo(v.T, lo, hi, to)
 		r.LowZero = v.LowZero
+		if tb := basicOf(to); tb != nil && tb.Kind() == types.Uint8 && f.pure == 0 && (lo == nil || hi == nil || hi.BitLen() > 8) {
+			// byte(x): the lowest byte of the byte decomposition of x
+			if bs := f.byteDecomp(v); bs != nil {
+				r.T = bs[0]
+				r.Lo, r.Hi = big.NewInt(0), big.NewInt(255)
+			}
+		}
 		if f.con != nil && f.con.Encoder && f.pure == 0 {
 			// narrowing conversions in an encoder must not lose information
 			if tlo, thi, ok := intRangeOf(to); ok {
